@@ -96,6 +96,48 @@ theorem tsn_layer (cs : List TxChan) (sid : UInt16) (ppid : UInt32) (hp : ppid.t
         omega
     · omega
 
+/-- **process_never_fails** (round 2): `process_data_payload` returns `Ok` for every chunk — user
+data on a known or unknown stream, DCEP fragments, malformed DCEP. (Before fixes e14ef52 / 549207d a
+DCEP chunk that `handle_dcep` could not parse made `handle_data` return before storing the
+cumulative TSN: the chunk was retransmitted for ever and every channel stalled.) -/
+theorem process_never_fails (pl : Pl) (c : DChunk) : (procPayload pl c).2 = true := procPayload_ok pl c
+
+/-- **tsn_layer_any_stream** (round 2): the TSN layer for an *arbitrary* chunk stream — any mix of
+channels, PPIDs, DCEP OPEN / ACK fragments, chunks for unknown streams, well-formed or not — with
+consecutive TSNs from `tsn0`: after any arrival history (loss, duplication, reordering, delay) the
+payload layer has processed exactly the first `k` chunks, in order, once; the cumulative TSN is
+`tsn0 − 1 + k`; and `k` is the whole stream once every chunk has arrived. -/
+theorem tsn_layer_any_stream (chunks : List DChunk) (tsn0 : UInt32)
+    (hts : ∀ i (h : i < chunks.length), chunks[i].tsn = tsn0 + UInt32.ofNat i)
+    (hlen : chunks.length < 2147483648) (s0 : Rx) (hcum : s0.cum = tsn0 - 1) (hrq : s0.rq = [])
+    (arr : List (Fin chunks.length)) :
+    ∃ k, k ≤ chunks.length ∧
+      (arr.foldl (fun s i => handleData s chunks[i]) s0).pl = plRun procPayload s0.pl (chunks.take k) ∧
+      (arr.foldl (fun s i => handleData s chunks[i]) s0).cum = tsn0 + UInt32.ofNat k - 1 ∧
+      ((∀ i : Fin chunks.length, i ∈ arr) → k = chunks.length) := by
+  have hok : ∀ pl c, c ∈ chunks → (procPayload pl c).2 = true := fun pl c _ => procPayload_ok pl c
+  have inv0 : Inv procPayload chunks tsn0 s0.pl 0 s0 :=
+    ⟨Nat.zero_le _, by rw [hcum, u32_add_zero], by simp, by rw [hrq]; intro e he; simp at he⟩
+  obtain ⟨k, _, inv, hseen⟩ := handleData_fold procPayload _ tsn0 s0.pl hts hlen hok arr 0 s0 [] inv0
+    (by intro i hi; simp at hi)
+  refine ⟨k, inv.hk, inv.pl, inv.cum, ?_⟩
+  intro hall
+  have hk := inv.hk
+  by_cases hlt : k < chunks.length
+  · exfalso
+    have hmem : k ∈ [] ++ arr.map (·.val) := by
+      simp only [List.nil_append, List.mem_map]
+      exact ⟨⟨k, hlt⟩, hall ⟨k, hlt⟩, rfl⟩
+    obtain ⟨_, hh⟩ := hseen k hmem
+    cases hh with
+    | inl h => omega
+    | inr h =>
+      obtain ⟨e, he, heq⟩ := h
+      obtain ⟨j, hj, hjl, hje, _⟩ := inv.rq e he
+      have : j = k := u32_off_inj tsn0 j k (by omega) (by omega) (hje.symm.trans heq)
+      omega
+  · omega
+
 /-- **recv_prefix** (safety): for every workload `msgs` on an ordered channel, every initial TSN
 (wrap-around included), every arrival history of its DATA chunks — arbitrary loss, duplication,
 reordering, delay — the events delivered to the application on that channel are the events it
